@@ -297,9 +297,17 @@ mod raw {
             let write_stdin = stdin.map(|mut stdin| {
                 let input_data = input_data.expect("must provide input to redirected stdin");
                 helper_set |= StreamIdent::In as u8;
-                move |tx: SyncSender<_>| match stdin.write_all(&input_data) {
-                    Ok(()) => drop(tx.send((StreamIdent::In, Payload::EOF))),
-                    Err(e) => drop(tx.send((StreamIdent::In, Payload::Err(e)))),
+                move |tx: SyncSender<_>| {
+                    let result = stdin.write_all(&input_data);
+                    // Close stdin right away so that the child sees EOF.  The
+                    // send below blocks until the main thread is receiving,
+                    // which may be much later (or never) when read() was cut
+                    // short by a size or time limit.
+                    drop(stdin);
+                    match result {
+                        Ok(()) => drop(tx.send((StreamIdent::In, Payload::EOF))),
+                        Err(e) => drop(tx.send((StreamIdent::In, Payload::Err(e)))),
+                    }
                 }
             });
 
